@@ -493,6 +493,7 @@ fn plan(corpus: &Corpus, thorough: bool, seed: u64, scale: f64) -> Vec<JobKind> 
             ("trunc_fix", 0.5),
             ("trunc_consistent", 1.0),
             ("bytes", 2.0),
+            ("hdrstr", 0.6),
             ("section", 2.0),
             ("index", 2.0),
             ("shift", 1.0),
@@ -641,6 +642,30 @@ fn mutate_tfm(src: &[u8], class: &str, param: u64) -> Vec<u8> {
         "bytes" => {
             let n = 1 + rng.below(6) as usize;
             mutate_bytes(&mut b, &mut rng, n, 24);
+        }
+        "hdrstr" => {
+            // the two BCPL strings of the header (coding scheme: words 2..11, family: words 12..16):
+            // the length byte and the first characters are set together (too long / empty / exact
+            // length x non-ASCII, parenthesis, control and lower-case characters)
+            let lh = get_word(&b, 1) as usize;
+            let chars: &[u8] = &[0x80, 0xFF, 0xC3, 0xA9, b'(', b')', 0, 0x1F, 0x7F, b'a', b'A', b' ', b'~', 0x9F, 0xE9];
+            for (at, words, lens) in [(32usize, 10usize, &[0u8, 1, 2, 38, 39, 40, 41, 100, 128, 255][..]), (72, 5, &[0u8, 1, 18, 19, 20, 21, 40, 128, 255][..])] {
+                if 24 + 4 * lh < at + 4 * words || b.len() < at + 4 * words || !rng.chance(3, 4) {
+                    continue;
+                }
+                b[at] = *rng.pick(lens);
+                let n = match rng.below(4) {
+                    0 => 1,
+                    1 => 2,
+                    2 => 4 * words - 1,
+                    _ => 1 + rng.below(4 * words as u64 - 1) as usize,
+                };
+                for k in 0..n {
+                    if k == 0 || rng.chance(1, 2) {
+                        b[at + 1 + k] = *rng.pick(chars);
+                    }
+                }
+            }
         }
         "section" => {
             // choose a table uniformly (not a byte uniformly), then damage a few bytes in it
@@ -794,7 +819,7 @@ fn mutate_tfm(src: &[u8], class: &str, param: u64) -> Vec<u8> {
         _ => {
             // mix: two or three of the above
             for _ in 0..2 + rng.below(2) {
-                let c = *rng.pick(&["bytes", "section", "index", "shift", "trunc_consistent", "extend", "index"]);
+                let c = *rng.pick(&["bytes", "section", "index", "shift", "trunc_consistent", "extend", "index", "hdrstr"]);
                 b = mutate_tfm(&b, c, rng.next());
             }
         }
